@@ -52,7 +52,7 @@ def run(chk):
             return EffectResult(None, havoc=False)
         w.effect_hook = hook
         for p in prog.fns:
-            if "VecDeque::<T, A>::len" in p or "VecDeque::<T, A>::push_back" in p or "VecDeque::<T, A>::pop_front" in p:
+            if "VecDeque::<T, A>::len" in p or "VecDeque::<T, A>::push_back" in p or "VecDeque::<T, A>::pop_front" in p or "VecDeque::<T, A>::resize" in p:
                 w.opaque_paths.add(p)
         return w
 
@@ -135,6 +135,7 @@ def run(chk):
             chk.fail(key + "/paths", "%s %s" % (r.outcome, r.detail))
             continue
         pushes = [e for e in r.trace if e.path.endswith("push_back")]
+        resizes = [e for e in r.trace if e.path.endswith("VecDeque::<T, A>::resize")]
         short = c04.cc_decide(r, tm.cmp("ult", QLEN, SPFs))
         if pushes:
             seen.add("pad")
@@ -142,6 +143,13 @@ def run(chk):
             chk.check(all(getattr(e.args[1], "name", None) == "mix.last_sample" for e in pushes), key + "/pad-value", "padding is not the last generated sample")
             rng = [c for c in r.pc if c[0] in ("eq", "ne") and isinstance(c[1], T) and c[1].op == "ult" and c[1].args[1] is SPFs]
             chk.check(bool(rng), key + "/pad-range", "padding does not run from the current length up to exactly samples_per_frame")
+        if resizes:
+            # the same padding as one call: grow the queue to exactly one frame with the last sample (the guard
+            # len < samples_per_frame makes it a growth, never a truncation)
+            seen.add("pad")
+            chk.check(short is True, key + "/guard", "the queue is resized although it already holds a frame")
+            chk.check(len(resizes) == 1 and resizes[0].args[1] is SPFs, key + "/pad-range", "the queue is not resized to exactly samples_per_frame: %s" % (resizes[0].args[1],))
+            chk.check(all(getattr(e.args[2], "name", None) == "mix.last_sample" for e in resizes), key + "/pad-value", "padding is not the last generated sample")
         if r.outcome == "return":
             seen.add("done")
             lp = r.store[("h", "mix")].fields[fi("last_pos")]
@@ -152,9 +160,10 @@ def run(chk):
     for fn in prog.local_fns():
         for b in fn.body["blocks"]:
             t = b["t"]
-            if t["k"] == "call" and "path" in t["f"] and "VecDeque" in (t["f"].get("resolved") or {}).get("path", t["f"]["path"]) and "push" in t["f"]["path"]:
+            if t["k"] == "call" and "path" in t["f"] and "VecDeque" in (t["f"].get("resolved") or {}).get("path", t["f"]["path"]) and \
+                    any(k_ in t["f"]["path"] for k_ in ("push", "resize", "extend", "append", "insert")):
                 push_fns.add(fn.path.split("::")[-1])
-    chk.check(push_fns == {"process", "new_frame"}, "T-GUARD/ZXMixer/push-sites", "audio queue pushes occur in %s; judged: process, new_frame" % sorted(push_fns))
+    chk.check(push_fns == {"process", "new_frame"}, "T-GUARD/ZXMixer/push-sites", "the audio queue grows in %s; judged: process, new_frame" % sorted(push_fns))
     # beeper levels
     BP = prog.adt_path("rustzx_core", "ZXBeeper")
     GS = [p for p in prog.fns if p.startswith("<rustzx_core::") and "ZXBeeper" in p and p.endswith("::gen_sample")]
@@ -177,9 +186,10 @@ def run(chk):
         chk.undecided_("anchor/ZXBeeper::gen_sample", "%s" % GS)
     # writers / consumers
     short_ = lambda p: p.split("::")[-1]
-    got = set(short_(p) for p in fa.writers(MIX, "last_sample"))
+    names_ = cc.Names(prog)
+    got = cc.effective_writers(prog, cg, fa, names_, MIX, "last_sample", {"gen_sample"})
     chk.check(got == {"gen_sample"}, "T-WRITERS/ZXMixer.last_sample", "last_sample is written by %s" % sorted(got))
-    got = set(short_(p) for p in fa.writers(MIX, "last_pos"))
+    got = cc.effective_writers(prog, cg, fa, names_, MIX, "last_pos", {"process", "new_frame"})
     chk.check(got == {"process", "new_frame"}, "T-WRITERS/ZXMixer.last_pos", "last_pos is written by %s" % sorted(got))
     callers = set(short_(s.fn.path) for s in cg.callers_of(prog.fn_path("rustzx_core", "ZXMixer::pop")))
     chk.check(callers == {"next_audio_sample"}, "T-WRITERS/ZXMixer::pop/callers", "the queue is drained from %s" % sorted(callers))
